@@ -40,6 +40,8 @@ def project_probes(ctx, project):
                 f["lines"][0]["segs"][0].startswith("﻿"):
             ctx.probe("bom_file")
     ctx.probe("syntax_" + project["syntax"])
+    if project.get("clock_slots"):
+        ctx.probe("calendar_pattern_beside_semver")
     if project.get("cfg_glob"):
         ctx.probe("glob_covers_config_file")
 
@@ -192,7 +194,10 @@ class Life:
             use_date = op.get("date_flag") and not flags.get("pin_date")
             if use_date:
                 argv += ["--date", clock.isoformat()]
-                today = dt.date(1999, 1, 1) if step % 2 == 0 else clock
+                today = dt.date(1999, 1, 1) if (step % 2 == 0 and not project.get("clock_slots")) else clock
+            if w.clock is not None:
+                w.start_clock_fields = w.clock_fields()
+                w.clock = clock
             if op.get("dry"):
                 argv.append("--dry")
             target = None
@@ -296,7 +301,8 @@ class Locale:
         rng = runner.rng_for(seed, self.name, index)
         # file *names* stay ASCII here: a non-ASCII name cannot even be encoded by an ASCII-locale interpreter,
         # which is the operating system's doing and not in the statement (it speaks of text inside files)
-        project = layouts.gen_project(rng, mode="bytes", vcs="none", allow_odd_paths=False)
+        # (no clock-derived patterns either: a child process cannot share the simulated "today")
+        project = layouts.gen_project(rng, mode="bytes", vcs="none", allow_odd_paths=False, clock_patterns=False)
         tree = rp.tokenize(project["version_pattern"])
         flags = gp.gen_flags(rng, tree)
         flags.pop("pin_date", None)
